@@ -68,7 +68,9 @@ const ttl = time.Minute
 
 // execute runs the script under the given choice prefix (then always choice 0) and returns the number of
 // alternatives at every decision point, or a violation.
-func execute(t *testing.T, script []scriptOp, maxSize int64, prefix []int, res *result) (alts []int, viol, key string) {
+var errLoad = fmt.Errorf("injected read error")
+
+func execute(t *testing.T, script []scriptOp, maxSize int64, prefix []int, res *result) (alts []int, viol, vkey string) {
 	synctest.Test(t, func(t *testing.T) {
 		s := &sched{}
 		vsync.Hook = s.hook
@@ -94,13 +96,13 @@ func execute(t *testing.T, script []scriptOp, maxSize int64, prefix []int, res *
 			}
 			switch {
 			case size < 0:
-				viol, key = fmt.Sprintf("cache size is %d (negative): an item was released twice", size), "C17.cache-threads.size-negative"
+				viol, vkey = fmt.Sprintf("cache size is %d (negative): an item was released twice", size), "C17.cache-threads.size-negative"
 			case size > max:
-				viol, key = fmt.Sprintf("cache size %d exceeds the maximum %d", size, max), "C17.cache-threads.over-limit"
+				viol, vkey = fmt.Sprintf("cache size %d exceeds the maximum %d", size, max), "C17.cache-threads.over-limit"
 			case size != lruBytes:
-				viol, key = fmt.Sprintf("cache accounts %d bytes but the items it holds sum to %d bytes (%d items in the eviction list, %d in the map)", size, lruBytes, lru, len(items)), "C17.cache-threads.accounting"
+				viol, vkey = fmt.Sprintf("cache accounts %d bytes but the items it holds sum to %d bytes (%d items in the eviction list, %d in the map)", size, lruBytes, lru, len(items)), "C17.cache-threads.accounting"
 			case loaded != lru:
-				viol, key = fmt.Sprintf("%d items of the map are linked, the eviction list has %d entries", loaded, lru), "C17.cache-threads.linkage"
+				viol, vkey = fmt.Sprintf("%d items of the map are linked, the eviction list has %d entries", loaded, lru), "C17.cache-threads.linkage"
 			}
 			return viol == ""
 		}
@@ -148,13 +150,21 @@ func execute(t *testing.T, script []scriptOp, maxSize int64, prefix []int, res *
 				go func() {
 					defer func() {
 						if r := recover(); r != nil {
-							viol, key = fmt.Sprintf("Get(%s) panicked: %v", op.Get, r), "C17.cache-threads.panic"
+							viol, vkey = fmt.Sprintf("Get(%s) panicked: %v", op.Get, r), "C17.cache-threads.panic"
 						}
 						rmu.Lock()
 						running--
 						rmu.Unlock()
 					}()
-					c.Get(key, func() ([]byte, error) { return []byte(key + "123")[:4], nil })
+					v, err := c.Get(key, func() ([]byte, error) {
+						if key == "E" { // a read error: the half-filled buffer comes back together with the error
+							return []byte("bad!"), errLoad
+						}
+						return []byte(key + "123")[:4], nil
+					})
+					if key == "E" && err == nil {
+						viol, vkey = fmt.Sprintf("Get(E): the loader failed, yet a caller got %q without an error", v), "C03.cache.failed-load-served"
+					}
 				}()
 			} else {
 				history = append(history, fmt.Sprintf("advance(%s)", op.Advance))
@@ -239,6 +249,7 @@ func scripts(thorough bool) [][]scriptOp {
 		{g("A"), g("B"), adv, g("C")},  // two items expire while a third arrives
 		{g("A"), half, g("A"), half, g("B")}, // refreshed access time, then eviction
 		{g("A"), g("A"), adv, g("A")},  // concurrent Gets of one key, expiry, reload
+		{g("E"), g("E"), g("A")},       // a failing load with a second caller waiting for the same block
 	}
 	if thorough {
 		out = append(out, []scriptOp{g("A"), g("B"), adv, g("C"), g("A")}, []scriptOp{g("A"), adv, g("B"), adv, g("A"), g("C")})
@@ -266,8 +277,12 @@ func TestC17CacheThreads(t *testing.T) {
 		fmt.Printf("CHILD-RESULT %s\n", b)
 		return
 	}
-	rep := core.NewReport("C17", "cache-threads", "model_checking")
-	rep.Rule = "read cache (piececache) with its locks made scheduler-visible: scripts of Get calls (keys A, B, C; 4-byte values) and clock advances (TTL, TTL/2) on caches of 4 and 8 bytes; every goroutine reaching a lock of the cache - callers and expiring TTL timers - parks there and the explorer chooses who proceeds: all interleavings; after every step size == bytes held, 0 <= size <= max, linked items == eviction list; no panic"
+	prop := "C17" // the same exploration decides the read-cache clause of C17 and the "whatever the read cache holds" clause of C03
+	if os.Getenv("VERIF_PROP") == "C03" {
+		prop = "C03"
+	}
+	rep := core.NewReport(prop, "cache-threads", "model_checking")
+	rep.Rule = "read cache (piececache) with its locks made scheduler-visible: scripts of Get calls (keys A, B, C; 4-byte values) and clock advances (TTL, TTL/2) on caches of 4 and 8 bytes; every goroutine reaching a lock of the cache - callers and expiring TTL timers - parks there and the explorer chooses who proceeds: all interleavings; after every step size == bytes held, 0 <= size <= max, linked items == eviction list; no panic; a load that fails is an error for every caller waiting for it"
 	rep.Assumptions = []string{"scheduling points are the Lock/RLock calls of the cache and its items; loaders return at once", "values of one size"}
 	cmd := exec.Command(os.Args[0], "-test.run", "^TestC17CacheThreads$", "-test.timeout", "0")
 	cmd.Env = append(os.Environ(), "VERIF_CACHETHR_CHILD=1")
@@ -294,13 +309,15 @@ func TestC17CacheThreads(t *testing.T) {
 					break
 				}
 			}
-			rep.Violate("C17.cache-threads.crash", "the process died while the cache's goroutines were being interleaved ("+first+"):\n"+tail, nil)
+			rep.Violate(prop+".cache-threads.crash", "the process died while the cache's goroutines were being interleaved ("+first+"):\n"+tail, nil)
 		} else {
 			core.HarnessError("cache thread exploration produced no result (%v): %s", err, tail)
 		}
 	}
 	for k, v := range res.Viol {
-		rep.Violate(k, v, nil)
+		if strings.HasPrefix(k, prop+".") {
+			rep.Violate(k, v, nil)
+		}
 	}
 	rep.Evaluations = res.Executions
 	rep.States = res.Steps
